@@ -87,7 +87,8 @@ PROPS = {
         "partial_gap": "PROVED: (1) C19_interp_total / C19_interp_never_panics - for all pair trees t with Shape t (the grammar-derived shape), interp t is "
                        "Ok or Err, never a panic (all statement kinds, all helpers, post-processing); C19_tree_shape - the run-time checker shapeb decides "
                        "Shape; C19_peg_tree_shape / C19_text_level_no_panic - every pair tree that the PEG model of pest (Model/Peg.v) returns for ANY text "
-                       "has that shape, hence no accepted text can make the interpretation panic. "
+                       "has that shape, hence no accepted text can make the interpretation panic; C19_model_never_panics - the text-level model "
+                       "gsd_model (Peg.v then interp) has no panic outcome for any text. "
                        "(2) C19_roundtrip_settings_partial - for files consisting of key = number|string settings (known non-special keys in any "
                        "letter case, or unknown keys; numbers as any decimal/0x-hex digit string within the field's type; strings without back slash, cut "
                        "by any line continuation markers; any preamble; no field written twice) the interpretation of the pair tree yields exactly the "
